@@ -60,6 +60,15 @@ pub fn expr_vars(e: &E, out: &mut Vec<String>) {
         }
         E::Not(a) | E::IsNull(a) | E::IsNotNull(a) | E::Neg(a) => expr_vars(a, out),
         E::Func(_, args) | E::ListE(args) => args.iter().for_each(|a| expr_vars(a, out)),
+        E::Case(arms, els) => {
+            for (c, v) in arms {
+                expr_vars(c, out);
+                expr_vars(v, out);
+            }
+            if let Some(e) = els {
+                expr_vars(e, out);
+            }
+        }
         E::Agg(_, _, a) => {
             if let Some(a) = a {
                 expr_vars(a, out)
@@ -506,6 +515,18 @@ pub fn eval(e: &E, env: &Env, cx: &mut Ctx) -> Result<V, RefErr> {
         E::PatExists(p) => {
             let rows = match_patterns(std::slice::from_ref(p.as_ref()), env, cx)?;
             V::Bool(!rows.is_empty())
+        }
+        E::Case(arms, els) => {
+            // first WHEN whose condition is true; null and false both fall through
+            for (c, v) in arms {
+                if truth(&eval(c, env, cx)?)? == Some(true) {
+                    return eval(v, env, cx);
+                }
+            }
+            match els {
+                Some(e) => eval(e, env, cx)?,
+                None => V::Null,
+            }
         }
     })
 }
